@@ -51,7 +51,7 @@ theorem good_extend (interp : Interp V) {st st3 : BState V} {vals : List V} (hg 
     rw [hext.nodes, denote_append]
     exact denote_single c4 ρ1 n v houtn
   have hfresh3 : ∀ x, st3.next ≤ x → st3.init x = none := hext.above hg.fresh
-  refine ⟨?_, ?_, ?_, ?_, ?_, ?_⟩
+  refine ⟨?_, ?_, ?_, ?_, ?_, ?_, ?_⟩
   · intro x hx
     exact hfresh3 x (Nat.le_of_lt hx)
   · intro m hm
@@ -87,6 +87,16 @@ theorem good_extend (interp : Interp V) {st st3 : BState V} {vals : List V} (hg 
     rcases List.mem_append.mp hm' with h | h
     · rw [hext.below m (hg.nlt m h)]; exact hg.ninit m h
     · simp at h; subst h; exact hfresh3 _ (Nat.le_refl _)
+  · -- only recorded nodes have a record
+    intro m hm
+    have hm' : m ∉ st.nodes ++ [n] := by
+      have : m ∉ st3.nodes ++ [n] := hm
+      rwa [hext.nodes] at this
+    have hmn : m ≠ n := fun h => hm' (by simp [h])
+    have hmo : m ∉ st.nodes := fun h => hm' (by simp [h])
+    show (if m = n then r else st3.recOf m).refs = []
+    rw [if_neg hmn, hext.recOf]
+    exact hg.norec m hmo
   · -- sees
     have hs := hg.sees
     refine ⟨?_, ?_⟩
